@@ -69,6 +69,8 @@ pub struct GenCfg {
     pub seed_exps: Vec<i32>,
     /// every third leaf: each element additionally scaled by its own 2^j, |j| <= elem_jitter
     pub elem_jitter: i32,
+    /// Some((lo, hi, exp_max)): the relaxed operand domain of `ops::in_wide_domain` instead of the narrow default
+    pub wide_domain: Option<(f64, f64, f64)>,
 }
 
 /// Generator profiles that widen what the small default programs reach.
@@ -102,6 +104,7 @@ impl GenCfg {
             mag_exps: vec![],
             seed_exps: vec![],
             elem_jitter: 0,
+            wide_domain: None,
         }
     }
     fn size(&self, sel: u8) -> usize {
@@ -128,8 +131,10 @@ impl GenCfg {
                     self.seed_exps = vec![0, -8, 6, 0, 10, -4];
                     self.max_abs = 1e12;
                     self.elem_jitter = 4;
+                    self.wide_domain = Some((1e-5, 1e5, 12.0));
                 } else {
                     self.elem_jitter = 26;
+                    self.wide_domain = Some((1e-30, 1e30, 80.0));
                     self.mag_exps = vec![-40, -28, -12, -3, 0, 0, 0, 4, 11, 21, 30, 40];
                     self.seed_exps = vec![0, 0, 20, -12, 100, -100, 0, 40, 560, -60];
                     self.max_abs = 1e60;
@@ -230,7 +235,11 @@ impl<'a> El<'a> {
             return None;
         }
         let ts: Vec<&T> = args.iter().map(|&h| &self.m.node_of(h).t).collect();
-        if !in_domain(op, &ts) {
+        let ok = match self.cfg.wide_domain {
+            Some((lo, hi, em)) => crate::ops::in_wide_domain(op, &ts, lo, hi, em),
+            None => in_domain(op, &ts),
+        };
+        if !ok {
             return None;
         }
         let k0 = crate::ops::kink_count();
